@@ -39,7 +39,7 @@ func init() {
 				return true
 			}
 			forkID, ok1 := unparen(se.X).(*ast.Ident)
-			blk, ok2 := unparen(call.Args[0]).(*ast.SelectorExpr)
+			blk, ok2 := defs.resolve1(info, call.Args[0]).(*ast.SelectorExpr) // fn.Block or `body := fn.Block`
 			if !ok1 || !ok2 || blk.Sel.Name != "Block" {
 				return true
 			}
@@ -74,7 +74,17 @@ func init() {
 					if !okl || !okr || l.Sel.Name != "FileRef" || r.Sel.Name != "FileRef" {
 						continue
 					}
-					li, ok1 := unparen(l.X).(*ast.Ident)
+					// the fork: `fork`, its embedded process written out (`fork.Process`), or a local holding that
+					// pointer (`proc := fork.Process`) — the FileRef they name is the same field of the same object
+					lx := unparen(l.X)
+					if emb, isSel := defs.resolve1(info, lx).(*ast.SelectorExpr); isSel {
+						if sel := info.Selections[emb]; sel != nil && sel.Kind() == types.FieldVal {
+							if f, isVar := sel.Obj().(*types.Var); isVar && f.Embedded() {
+								lx = unparen(emb.X)
+							}
+						}
+					}
+					li, ok1 := lx.(*ast.Ident)
 					ri, ok2 := unparen(r.X).(*ast.Ident)
 					if ok1 && ok2 && info.ObjectOf(li) == forkObj && info.ObjectOf(ri) == fnObj {
 						found = true
